@@ -136,6 +136,9 @@ fn headers(cmf: u8, cx: &mut Ctx) -> Check {
         } else {
             vensure!(r.status == TINFLStatus::Failed, "c09:invalid-header-status", "header {cmf:#04x} {flg:#04x}: status {}", status_name(r.status));
         }
+        // the ignore-checksum option only skips the trailer comparison: same verdict on the header
+        let ri = flat_oneshot(&s, TINFL_FLAG_PARSE_ZLIB_HEADER | TINFL_FLAG_IGNORE_ADLER32, plain.len())?;
+        vensure!((ri.status == TINFLStatus::Done) == rules, if rules { "c09:valid-header-rejected" } else { "c09:invalid-header-accepted" }, "flat, IGNORE_ADLER32: header {cmf:#04x} {flg:#04x}: decoder says {}, RFC 1950 rules say {}", status_name(ri.status), if rules { "valid" } else { "invalid" });
         // rings
         for bits in 0..=16u8 {
             let want = rules && (1u32 << (cinfo + 8)) <= (1u32 << bits);
